@@ -154,7 +154,7 @@ def model_hash():
     return h.hexdigest()
 
 
-def gen_dispatch(exclude=()):
+def _dispatch_text(exclude=(), prefix='KV'):
     mods = []
     left_out = {}
     for f in sorted(os.listdir(os.path.join(COQ, 'Model'))):
@@ -165,9 +165,6 @@ def gen_dispatch(exclude=()):
                     left_out[int(m.group(1))] = f[:-2]
                 else:
                     mods.append((f[:-2], int(m.group(1))))
-    os.makedirs(EXTRACT_DIR, exist_ok=True)
-    with open(os.path.join(EXTRACT_DIR, 'left_out_wires.json'), 'w') as fo:
-        json.dump({str(k): v for k, v in left_out.items()}, fo)
     lines = ['(* GENERATED by harness/vh/core.py:gen_dispatch *)',
              'From Coq Require Import ZArith List.', 'Import ListNotations.', 'Open Scope Z_scope.',
              'From KV Require Import Base.Sx.']
@@ -177,27 +174,45 @@ def gen_dispatch(exclude=()):
     for mod, n in mods:
         lines.append('  | L [I %d; p] => Model.%s.wire_%d p' % (n, mod, n))
     lines.append('  | _ => sx_err\n  end.')
-    text = '\n'.join(lines) + '\n'
+    return '\n'.join(lines) + '\n', left_out
+
+
+def gen_dispatch():
+    text, _ = _dispatch_text()
     path = os.path.join(COQ, 'Extract', 'Dispatch.v')
     if not os.path.exists(path) or open(path).read() != text:
         with open(path, 'w') as f:
             f.write(text)
 
 
-def build_model():
-    """Compile Model/*.v (not the proofs), extract to OCaml and build build/extract/driver.
+# the model binary used by run_model: the full driver, or a partial one (see build_model)
+DRIVER = {'path': os.path.join(EXTRACT_DIR, 'driver'), 'left_out': {}}
 
-    Returns (ok, message, failed) where failed is the set of Model modules that do not compile on the current tree
-    (e.g. because a translator item they read is missing from Generated.v).  Such modules are left out of the
-    dispatcher so that the checks of properties whose cone does not contain them keep a working model binary:
-    a broken tie of one property must not raise an alarm for another."""
+
+def _ocaml_driver(d):
+    sh('cp %s/Extract/driver.ml %s/driver.ml' % (COQ, d))
+    return sh('ocamlfind ocamlopt -O3 -w -a model.mli model.ml driver.ml -o driver', cwd=d, timeout=600)
+
+
+def build_model(cone_models=None):
+    """Compile Model/*.v (not the proofs), extract to OCaml and build the model driver.
+
+    Returns (ok, message, failed); failed = Model modules that do not compile on the current tree (typically because a
+    translator item they read is missing from Generated.v; '*' = the tool chain / shared files).
+      * nothing failed: the full driver build/extract/driver is (re)built and used;
+      * a module in `cone_models` (the cone of the property being checked) failed, or cone_models is None: ok=False and
+        the LAST GOOD full driver is left untouched - the caller reports the broken obligation and uses that driver
+        for the failing-input search;
+      * only modules outside the cone failed: a partial driver without them is built under build/extract/partial and
+        used, so that a broken tie of one property raises no alarm for another; calling a left-out wire raises."""
     os.makedirs(EXTRACT_DIR, exist_ok=True)
+    DRIVER['path'] = os.path.join(EXTRACT_DIR, 'driver')
+    DRIVER['left_out'] = {}
     failed = set()
     ensure_makefile()
     # always make sure the model .vo files exist (a thorough-tier clean removes them); no-op when up to date
     targets = ' '.join(s[:-2] + '.vo' for s in coq_sources() if s.startswith(('Base/', 'Gen/', 'Model/')))
     rc, out = sh('timeout 1500 make -k -j%d %s' % (NPROC, targets), cwd=COQ, timeout=1600)
-    first_error = ''
     if rc:
         first_error = out[-3000:]
         rc2, out2 = sh('timeout 300 make -k -n %s' % targets, cwd=COQ, timeout=330)   # what is still out of date
@@ -205,44 +220,65 @@ def build_model():
         if any(not m.startswith('Model/') for m in stale) or not stale:
             return False, 'model does not compile:\n' + first_error, set(['*'])
         failed = set(m.split('/', 1)[1] for m in stale)
-    gen_dispatch(exclude=failed)
+        msg = 'model files that do not compile: %s\n%s' % (', '.join(sorted(failed)), first_error)
+        if cone_models is None or (failed & set(cone_models)):
+            return False, msg, failed
+        # partial driver for a property whose cone is intact
+        d = os.path.join(EXTRACT_DIR, 'partial')
+        os.makedirs(d, exist_ok=True)
+        text, left_out = _dispatch_text(exclude=failed)
+        hh = model_hash() + '|' + ','.join(sorted(failed))
+        stamp = os.path.join(d, 'stamp')
+        if not (os.path.exists(stamp) and open(stamp).read() == hh and os.path.exists(os.path.join(d, 'driver'))):
+            with open(os.path.join(d, 'DispatchP.v'), 'w') as f:
+                f.write(text)
+            with open(os.path.join(d, 'ExtractP.v'), 'w') as f:
+                f.write('From KVP Require Import DispatchP.\nRequire Import ExtrOcamlBasic.\nExtraction Language OCaml.\n'
+                        'Extraction "model.ml" run.\n')
+            rc, out = sh('timeout 600 coqc -Q %s KV -Q . KVP DispatchP.v && timeout 600 coqc -Q %s KV -Q . KVP ExtractP.v'
+                         % (COQ, COQ), cwd=d, timeout=1300)
+            if rc:
+                return False, 'partial dispatch / extraction failed:\n' + out[-3000:], failed
+            rc, out = _ocaml_driver(d)
+            if rc:
+                return False, 'ocaml build of the partial driver failed:\n' + out[-3000:], failed
+            with open(stamp, 'w') as f:
+                f.write(hh)
+        DRIVER['path'] = os.path.join(d, 'driver')
+        DRIVER['left_out'] = {str(k): v for k, v in left_out.items()}
+        return True, msg, failed
+    gen_dispatch()
     stamp = os.path.join(EXTRACT_DIR, 'stamp')
-    hh = model_hash() + '|' + ','.join(sorted(failed))
+    hh = model_hash()
     drv = os.path.join(EXTRACT_DIR, 'driver')
-    msg = ('model files that do not compile: %s\n%s' % (', '.join(sorted(failed)), first_error)) if failed else ''
     if os.path.exists(stamp) and open(stamp).read() == hh and os.path.exists(drv) \
             and os.path.exists(os.path.join(COQ, 'Extract', 'Dispatch.vo')):
-        return True, msg, failed
+        return True, '', failed
     rc, out = sh('timeout 600 coqc -Q . KV Extract/Dispatch.v', cwd=COQ, timeout=700)
     if rc:
-        return False, 'dispatch does not compile:\n' + out[-3000:], failed or set(['*'])
+        return False, 'dispatch does not compile:\n' + out[-3000:], set(['*'])
     rc, out = sh('timeout 600 coqc -Q %s KV -o %s/Extract.vo %s/Extract/Extract.v'
                  % (COQ, EXTRACT_DIR, COQ), cwd=EXTRACT_DIR, timeout=700)
     if rc:
-        return False, 'extraction failed:\n' + out[-3000:], failed or set(['*'])
-    sh('cp %s/Extract/driver.ml %s/driver.ml' % (COQ, EXTRACT_DIR))
-    rc, out = sh('ocamlfind ocamlopt -O3 -w -a model.mli model.ml driver.ml -o driver',
-                 cwd=EXTRACT_DIR, timeout=600)
+        return False, 'extraction failed:\n' + out[-3000:], set(['*'])
+    rc, out = _ocaml_driver(EXTRACT_DIR)
     if rc:
-        return False, 'ocaml build failed:\n' + out[-3000:], failed or set(['*'])
+        return False, 'ocaml build failed:\n' + out[-3000:], set(['*'])
     with open(stamp, 'w') as f:
         f.write(hh)
-    return True, msg, failed
+    return True, '', failed
 
 
 def run_model(cases, timeout=3000):
     """cases: list of python nested lists [fn_id, payload]; returns list of parsed outputs."""
     if not cases:
         return []
-    drv = os.path.join(EXTRACT_DIR, 'driver')
-    lo = os.path.join(EXTRACT_DIR, 'left_out_wires.json')
-    if os.path.exists(lo):
-        left_out = json.load(open(lo))
-        if left_out:
-            for c in cases:
-                if isinstance(c, (list, tuple)) and c and str(c[0]) in left_out:
-                    raise RuntimeError('wire %s belongs to Model/%s.v, which does not compile on this tree'
-                                       % (c[0], left_out[str(c[0])]))
+    drv = DRIVER['path']
+    if DRIVER['left_out']:
+        for c in cases:
+            if isinstance(c, (list, tuple)) and c and str(c[0]) in DRIVER['left_out']:
+                raise RuntimeError('wire %s belongs to Model/%s.v, which does not compile on this tree'
+                                   % (c[0], DRIVER['left_out'][str(c[0])]))
     text = '\n'.join(to_sx(c) for c in cases) + '\n'
     env = dict(os.environ, OCAMLRUNPARAM='l=8G')
     p = subprocess.run(['bash', '-c', 'ulimit -s unlimited 2>/dev/null; exec %s' % drv], input=text,
@@ -589,10 +625,10 @@ def run_check(prop, tier, seed, replay=None):
         ctx.proof = pr
         if ok and not pr['ok']:
             broken.append(('proof:%s' % pr['failed'], pr['message']))
-        mok, mmsg, mfailed = build_model()
         cone_models = set(s.split('/', 1)[1][:-2] for s in dep_cone(prop) if s.startswith('Model/'))
         cone_models |= set(getattr(mod, 'MODEL_FILES', ()))
-        if not mok or '*' in mfailed or (mfailed & cone_models):
+        mok, mmsg, mfailed = build_model(cone_models)
+        if not mok:
             # the model of THIS property (or the tool chain) is broken; model files of other properties that do not
             # compile are left out of the driver and are for their own checks to report
             broken.append(('model-build', mmsg))
